@@ -470,7 +470,7 @@ func C12Build(r *sim.Run, modes []string) *C12Stream {
 			times = append(times, uint64(k))
 			k += len(g)
 		}
-		stream = append(stream, work.RawMfra(refID, times, offs)...)
+		stream = append(stream, work.RawMfraOpt(refID, times, offs, byte(t.Draw(2)), uint32(t.Draw(64)))...)
 		top0, _ = ref.Walk(stream, 0, int64(len(stream)), true)
 	}
 	switch mode {
